@@ -81,8 +81,8 @@ SimpleExpected(b, h, kt) ==
       [] kt[1] = "i18n" -> GetI18n(b, h, kt[2])
       [] kt[1] = "u32"  -> GetU32(b, h, kt[2])
 
-Min(a, c) == IF a < c THEN a ELSE c
-Min3(a, c, d) == Min(a, Min(c, d))
+Least(a, c) == IF a < c THEN a ELSE c
+Least3(a, c, d) == Least(a, Least(c, d))
 
 \* dependency lists: names / flags / versions zipped; all three absent => empty list
 DepTags == [ get_provides |-> <<1047, 1112, 1113>>, get_requires |-> <<1049, 1048, 1050>>,
@@ -95,7 +95,7 @@ Zip3(b, h, t) ==     \* t = <<names tag, u32 tag, strings tag>>
     IF IsErr(n) /\ IsErr(f) /\ IsErr(v) /\ n.err = "TagNotFound" /\ f.err = "TagNotFound" /\ v.err = "TagNotFound"
         THEN Ok(<<>>)
     ELSE IF IsErr(n) THEN n ELSE IF IsErr(f) THEN f ELSE IF IsErr(v) THEN v
-    ELSE LET m == Min3(Len(n.ok), Len(f.ok), Len(v.ok)) IN
+    ELSE LET m == Least3(Len(n.ok), Len(f.ok), Len(v.ok)) IN
          Ok([i \in 1..m |-> [a |-> n.ok[i], b |-> f.ok[i], c |-> v.ok[i]]])
 
 DepsExpected(b, h, t) == Zip3(b, h, t)
@@ -105,7 +105,7 @@ ChangelogExpected(b, h) ==
     IF IsErr(n) /\ IsErr(f) /\ IsErr(v) /\ n.err = "TagNotFound" /\ f.err = "TagNotFound" /\ v.err = "TagNotFound"
         THEN Ok(<<>>)
     ELSE IF IsErr(n) THEN n ELSE IF IsErr(f) THEN f ELSE IF IsErr(v) THEN v
-    ELSE LET m == Min3(Len(n.ok), Len(f.ok), Len(v.ok)) IN
+    ELSE LET m == Least3(Len(n.ok), Len(f.ok), Len(v.ok)) IN
          Ok([i \in 1..m |-> [a |-> n.ok[i], b |-> f.ok[i], c |-> v.ok[i]]])
 
 \* file paths: dirnames[dirindexes[i]] ++ basenames[i]
@@ -122,18 +122,47 @@ FilePathsExpected(b, h) ==
     IF IsErr(bn) /\ IsErr(di) /\ IsErr(dn) /\ bn.err = "TagNotFound" /\ di.err = "TagNotFound" /\ dn.err = "TagNotFound"
         THEN Ok(<<>>)
     ELSE IF IsErr(bn) THEN bn ELSE IF IsErr(di) THEN di ELSE IF IsErr(dn) THEN dn
-    ELSE LET m == Min(Len(bn.ok), Len(di.ok))
+    ELSE LET m == Least(Len(bn.ok), Len(di.ok))
              bad == \E i \in 1..m : ~IsSmallIdx(di.ok[i]) \/ Lo(di.ok[i]) >= Len(dn.ok)
          IN IF bad THEN ErrV("InvalidTagIndex")
             ELSE Ok([i \in 1..m |-> dn.ok[Lo(di.ok[i]) + 1] \o bn.ok[i]])
+
+None == [none |-> TRUE]
+Opt(x) == IF IsErr(x) THEN None ELSE [some |-> x.ok]
+
+\* file entries: paths zipped with users, groups, modes, digests, mtimes, sizes (64-bit tag first, else
+\* 32-bit), flags, link targets; capabilities optional.  No FILEMODES tag: the documented empty list.
+\* A required tag absent or wrongly typed: an error (which one is not fixed by the documentation).
+Widen(d) == <<0, 0>> \o d
+HexLenOk(algo, n) == (algo = 1 /\ n = 32) \/ (algo = 8 /\ n = 64) \/ (algo = 9 /\ n = 96) \/ (algo = 10 /\ n = 128) \/ (algo = 11 /\ n = 56)
+FileEntriesExpected(b, h) ==
+    LET modes == GetU16Arr(b, h, 1030) IN
+    IF IsErr(modes) /\ modes.err = "TagNotFound" THEN Ok(<<>>)
+    ELSE LET users == GetStrArr(b, h, 1039)  groups == GetStrArr(b, h, 1040)  digs == GetStrArr(b, h, 1035)
+             mt == GetU32Arr(b, h, 1034)  fl == GetU32Arr(b, h, 1037)  lk == GetStrArr(b, h, 1036)
+             s64 == GetU64Arr(b, h, 5008)  s32 == GetU32Arr(b, h, 1028)
+             sizes == IF ~IsErr(s64) THEN s64 ELSE IF ~IsErr(s32) THEN Ok([i \in 1..Len(s32.ok) |-> Widen(s32.ok[i])]) ELSE s32
+             caps == GetStrArr(b, h, 5010)
+             capsBad == IsErr(caps) /\ caps.err # "TagNotFound"
+             paths == FilePathsExpected(b, h)
+             a == GetU32(b, h, 5011)
+             algo == IF IsErr(a) \/ ~IsSmallIdx(a.ok) \/ Lo(a.ok) \notin {1, 8, 9, 10, 11, 12, 14} THEN 1 ELSE Lo(a.ok)
+         IN IF IsErr(modes) \/ IsErr(users) \/ IsErr(groups) \/ IsErr(digs) \/ IsErr(mt) \/ IsErr(sizes) \/ IsErr(fl)
+               \/ IsErr(lk) \/ capsBad \/ IsErr(paths) THEN ErrV("any")
+            ELSE LET m == Least(Least(Least3(Len(paths.ok), Len(users.ok), Len(groups.ok)), Least3(Len(modes.ok), Len(digs.ok), Len(mt.ok))),
+                              Least3(Len(sizes.ok), Len(fl.ok), Len(lk.ok))) IN
+                 IF \E i \in 1..m : digs.ok[i] # <<>> /\ ~HexLenOk(algo, Len(digs.ok[i])) THEN ErrV("any")
+                 ELSE Ok([i \in 1..m |->
+                        [path |-> paths.ok[i], user |-> users.ok[i], group |-> groups.ok[i], mode |-> modes.ok[i],
+                         digest |-> IF digs.ok[i] = <<>> THEN None ELSE [some |-> digs.ok[i]],
+                         mtime |-> mt.ok[i], size |-> sizes.ok[i], flags |-> fl.ok[i], linkto |-> lk.ok[i],
+                         caps |-> IF IsErr(caps) \/ i > Len(caps.ok) THEN None ELSE [some |-> caps.ok[i]]]])
 
 \* scriptlets: script (string) required; flags (u32) and prog (string array) optional
 ScriptTags == [ get_pre_install_script |-> <<1023, 5020, 1085>>, get_post_install_script |-> <<1024, 5021, 1086>>,
                 get_pre_uninstall_script |-> <<1025, 5022, 1087>>, get_post_uninstall_script |-> <<1026, 5023, 1088>>,
                 get_pre_trans_script |-> <<1151, 5024, 1153>>, get_post_trans_script |-> <<1152, 5025, 1154>>,
                 get_pre_untrans_script |-> <<5103, 5107, 5105>>, get_post_untrans_script |-> <<5104, 5108, 5106>> ]
-None == [none |-> TRUE]
-Opt(x) == IF IsErr(x) THEN None ELSE [some |-> x.ok]
 ScriptExpected(b, h, t) ==
     LET s == GetStr(b, h, t[1]) IN
     IF IsErr(s) THEN s
